@@ -24,10 +24,11 @@ import (
 
 // C07Case: one configuration, one cut, and the seeds of the corruptions to try.
 type C07Case struct {
-	Cfg       emem.Config `json:"cfg"`
-	Cut       uint64      `json:"cut"`
-	Corrupt   []Corruption `json:"corrupt"`
-	OnlyMut   string      `json:"only_mut,omitempty"` // replay: restrict the mismatch catalogue to this entry
+	Cfg     emem.Config  `json:"cfg"`
+	Cut     uint64       `json:"cut"`
+	Corrupt []Corruption `json:"corrupt"`
+	OnlyMut string       `json:"only_mut,omitempty"` // replay: restrict the mismatch catalogue to this entry
+	PT      []PTOp       `json:"pt,omitempty"`       // operations on a registered stand-alone page table
 }
 
 // Corruption is one storage fault applied to the archive bytes / entries.
@@ -173,6 +174,13 @@ func genC07(r *kit.Rand, tier kit.Tier) C07Case {
 	c.Cfg.EventCap = 60000
 	c.Cut = uint64(r.PickInt(0, 1000, 3000, 7000, 15000, 40000, 100000))
 
+	if r.Chance(1, 2) {
+		ops := []string{"insert", "insert", "insert", "find", "remove", "update"}
+		for i := 0; i < r.Range(1, 10); i++ {
+			c.PT = append(c.PT, PTOp{Op: ops[r.Intn(len(ops))], PID: uint32(r.Range(1, 4)), VPage: uint64(r.Intn(6)), PPage: uint64(r.Intn(64))})
+		}
+	}
+
 	kinds := []string{"truncate", "bitflip", "zerofill", "drop-entry", "dup-entry", "swap-entries", "drop-build-id",
 		"port-overfill", "engine-unknown-handler", "engine-empty-handler", "engine-unknown-event-type", "port-unknown-msg-type",
 		"storage-absurd-units", "storage-unit-beyond-capacity", "component-spec-hash", "component-state-wrong-json-type", "idgen-kind", "entry-rename"}
@@ -257,7 +265,9 @@ func applyCorruption(orig []byte, k Corruption) (damaged []byte, mustFail bool, 
 		return pack(entries), true, true
 	case "port-overfill":
 		// more buffered elements than the port's capacity
-		i := pickEntity(func(e tarEntry) bool { return isPort(e) && !bytes.Contains(e.data, []byte(`"incoming":{"capacity":`+"0")) })
+		i := pickEntity(func(e tarEntry) bool {
+			return isPort(e) && !bytes.Contains(e.data, []byte(`"incoming":{"capacity":`+"0"))
+		})
 		if i < 0 {
 			return nil, false, false
 		}
@@ -419,6 +429,7 @@ func applyCorruption(orig []byte, k Corruption) (damaged []byte, mustFail bool, 
 
 type loadReq struct {
 	Cfg     emem.Config `json:"cfg"`
+	HasPT   bool        `json:"has_pt"`
 	Archive string      `json:"archive"`
 }
 
@@ -427,7 +438,7 @@ type loadReq struct {
 // "ok-but-resave-failed: …". A child that dies (address-space limit, timeout)
 // is reported as "died: …".
 func loadInChild(env *kit.Env, cfg emem.Config, archive []byte) string {
-	in, _ := json.Marshal(loadReq{Cfg: cfg, Archive: base64.StdEncoding.EncodeToString(archive)})
+	in, _ := json.Marshal(loadReq{Cfg: cfg, HasPT: extraPT != nil, Archive: base64.StdEncoding.EncodeToString(archive)})
 	cmd := exec.Command("sh", "-c", `ulimit -v 6291456; exec "$0" -helper c07load`, env.Exe)
 	cmd.Stdin = bytes.NewReader(in)
 
@@ -465,6 +476,10 @@ func c07LoadHelper(_ []string) {
 		return
 	}
 
+	if req.HasPT {
+		extraPT = []PTOp{} // the rebuilt simulation registers the (empty) page table too
+	}
+
 	arch, _ := base64.StdEncoding.DecodeString(req.Archive)
 	dir, _ := os.MkdirTemp("/dev/shm", "verif-c07-")
 
@@ -498,6 +513,13 @@ func c07LoadHelper(_ []string) {
 
 func execC07(c C07Case, env *kit.Env) kit.Outcome {
 	var out kit.Outcome
+
+	extraPT = nil
+	if len(c.PT) > 0 {
+		extraPT = c.PT
+	}
+
+	defer func() { extraPT = nil }()
 
 	a := newSim(&c.Cfg, env, true)
 	a.guarded(func() { _ = a.eng.RunUntil(timing.VTimeInPicoSec(c.Cut)) })
@@ -649,7 +671,7 @@ func init() {
 			"(build ID; requester / ROB / lower-module added or removed; connection layout; every cache's ways, MSHR, bank latency, write policy; requester script and max outstanding; ROB size; controller latency / banks / page policy; connection frequency; every port buffer capacity; storage capacity): LoadCheckpoint must return an error and must not panic; " +
 			"(c) 5 (thorough 12) seeded storage faults on the archive (truncation, bit flip, zero fill, dropped / duplicated / swapped / renamed tar entries, missing build ID, port buffer over its capacity, unknown or empty event handler on the first queued event, unknown event / message type tag, absurd storage unit count, storage unit beyond capacity, wrong spec hash, wrong JSON type in a State, wrong ID-generator kind) are loaded in a child process under a 6 GiB address-space limit: never a panic or a resource blow-up, an error where the damage is structural, and an accepted archive must be savable again; " +
 			"distinct = hash of (assembly, cut, corruption kinds); non-trivial = >= 5 mismatches enumerated and the cut lies after the first event",
-		Assumptions: []string{"bit flips and zero fills may legitimately yield a well-formed archive and are only required not to crash", "page-size mismatches need a VM assembly and are not yet generated"},
+		Assumptions: []string{"bit flips and zero fills may legitimately yield a well-formed archive and are only required not to crash", "a stand-alone page table is registered as a resource in half of the runs (canonical form of empty per-process tables); VM components are not part of the assemblies"},
 		Real:        []string{"simulation archive reader/writer", "simulation.LoadCheckpoint coverage checks", "modeling.Component / messaging.Port / mem.Storage / timing engine + ID generator LoadCheckpoint", "internal/codec"},
 		Stubs:       []string{"checkpointable scripted requesters"},
 		FaultKinds:  []string{"config-mismatch(enumerated)", "archive-truncate", "archive-bitflip", "archive-zerofill", "archive-drop-entry", "archive-dup-entry", "archive-swap-entries", "archive-drop-build-id", "archive-entry-rename", "archive-port-overfill", "archive-engine-unknown-handler", "archive-engine-empty-handler", "archive-engine-unknown-event-type", "archive-port-unknown-msg-type", "archive-storage-absurd-units", "archive-storage-unit-beyond-capacity", "archive-component-spec-hash", "archive-component-state-wrong-json-type", "archive-idgen-kind"},
@@ -666,7 +688,7 @@ func init() {
 			}
 
 			for _, q := range emem.ShrinkConfig(c.Cfg) {
-				out = append(out, C07Case{Cfg: q, Cut: c.Cut, Corrupt: c.Corrupt, OnlyMut: c.OnlyMut})
+				out = append(out, C07Case{Cfg: q, Cut: c.Cut, Corrupt: c.Corrupt, OnlyMut: c.OnlyMut, PT: c.PT})
 			}
 
 			return out
